@@ -376,6 +376,9 @@ func (m *message) UnmarshalBody(bodyBytes []byte) error {
 	case nil:
 		return nil
 	case *[]byte:
+		if body == nil {
+			return errors.New("message body: can not store a byte stream through a nil *[]byte")
+		}
 		if cap(*body) < length {
 			*body = make([]byte, length)
 		} else {
